@@ -2,12 +2,6 @@
 
 package wsutil
 
-import (
-	"io"
-
-	"github.com/gobwas/ws"
-)
-
 // vVariant picks one of three bounded sub-spaces (pairwise rather than full product):
 //
 //	0: stream structure  — k frames, payload 0..2, whole reads, 16-byte caller buffer
@@ -26,174 +20,4 @@ func vVariant() (k, maxPayload, mode, B int) {
 	default:
 		return k - 1, 2, 0, 1 + vChoose("B", 2)
 	}
-}
-
-// C04_reader_seq: the streaming Reader delivers every message's opcode and exact payload and
-// hands every interleaved control frame to OnIntermediate, for any chunking / buffer size.
-func C04_reader_seq() {
-	server := vChoose("side", 2) == 0
-	k, mp, mode, B := vVariant()
-	wire, items := vGenStream(server, k, mp, true)
-	src := vNewSrc(wire, mode, "chunk")
-	var inter []vItem
-	rd := &Reader{Source: &src, State: vSide(server), CheckUTF8: true,
-		OnIntermediate: func(h ws.Header, r io.Reader) error {
-			p, err := vReadAllB(r, 16)
-			if err != io.EOF && err != nil {
-				return err
-			}
-			inter = append(inter, vItem{control: true, op: byte(h.OpCode), payload: p})
-			return nil
-		}}
-	for _, it := range items {
-		inter = nil
-		h, err := rd.NextFrame()
-		vAssert(err == nil, "seq.nextframe_ok")
-		if err != nil {
-			return
-		}
-		vAssert(byte(h.OpCode) == it.op, "seq.opcode")
-		p, err := vReadAllB(rd, B)
-		vAssert(err == io.EOF, "seq.eof_at_message_end")
-		vAssert(vEqBytes(p, it.payload), "seq.payload")
-		vAssert(len(inter) == len(it.inter), "seq.intermediate_count")
-		if len(inter) == len(it.inter) {
-			for i := range inter {
-				vAssert(vAnd(inter[i].op == it.inter[i].op, vEqBytes(inter[i].payload, it.inter[i].payload)), "seq.intermediate_payload")
-			}
-		}
-		vAssert(!rd.State.Fragmented(), "seq.not_fragmented_after_message")
-		vTraceBytes("msg", p)
-	}
-	vAssert(src.pos == len(wire), "seq.all_consumed")
-	_, err := rd.NextFrame()
-	vAssert(err == io.EOF, "seq.clean_eof_between_messages")
-}
-
-// C04_readmessage_seq: ReadMessage returns each top-level item (with intermediates first).
-func C04_readmessage_seq() {
-	server := vChoose("side", 2) == 0
-	k, mp, mode, _ := vVariant()
-	wire, items := vGenStream(server, k, mp, true)
-	src := vNewSrc(wire, mode, "chunk")
-	for _, it := range items {
-		ms, err := ReadMessage(&src, vSide(server), nil)
-		vAssert(err == nil, "rm.ok")
-		if err != nil {
-			return
-		}
-		vAssert(len(ms) == len(it.inter)+1, "rm.count")
-		if len(ms) != len(it.inter)+1 {
-			return
-		}
-		for i, c := range it.inter {
-			vAssert(vAnd(byte(ms[i].OpCode) == c.op, vEqBytes(ms[i].Payload, c.payload)), "rm.intermediate")
-		}
-		last := ms[len(ms)-1]
-		vAssert(byte(last.OpCode) == it.op, "rm.opcode")
-		vAssert(vEqBytes(last.Payload, it.payload), "rm.payload")
-		vTraceBytes("msg", last.Payload)
-	}
-	vAssert(src.pos == len(wire), "rm.all_consumed")
-}
-
-// C04_readdata_seq: readData (behind ReadData/ReadClientText/...) returns the next wanted data
-// message, skips unwanted ones without leaking their bytes, answers pings in order.
-func C04_readdata_seq() {
-	server := vChoose("side", 2) == 0
-	k, mp, mode, _ := vVariant()
-	wire, items := vGenStream(server, k, mp, true)
-	rw := &vRW{vSrc: vNewSrc(wire, mode, "chunk")}
-	want := ws.OpCode(1 + vChoose("want", 3)) // text, binary, text|binary
-	var pings [][]byte
-	i := 0
-	for i < len(items) {
-		// expected: skip to the next wanted data message
-		j := i
-		for j < len(items) {
-			it := items[j]
-			if it.control {
-				if it.op == 9 {
-					pings = append(pings, it.payload)
-				}
-				j++
-				continue
-			}
-			for _, c := range it.inter {
-				if c.op == 9 {
-					pings = append(pings, c.payload)
-				}
-			}
-			if ws.OpCode(it.op)&want != 0 {
-				break
-			}
-			j++
-		}
-		p, op, err := readData(rw, vSide(server), want)
-		if j == len(items) { // nothing wanted remains: stream ends cleanly between messages
-			vAssert(err == io.EOF, "rd.eof_when_exhausted")
-			break
-		}
-		vAssert(err == nil, "rd.ok")
-		if err != nil {
-			return
-		}
-		vAssert(byte(op) == items[j].op, "rd.opcode")
-		vAssert(vEqBytes(p, items[j].payload), "rd.payload")
-		vTraceBytes("msg", p)
-		i = j + 1
-	}
-	// replies: exactly one pong per ping, same payload, in order, valid for the peer
-	fs, ok := vParseFrames(rw.out)
-	vAssert(ok, "rd.replies_whole_frames")
-	vAssert(len(fs) == len(pings), "rd.reply_count")
-	if ok && len(fs) == len(pings) {
-		for n, f := range fs {
-			good := vAnd(f.op == 10, vAnd(f.fin, vAnd(f.rsv == 0, f.masked == !server)))
-			vAssert(good, "rd.reply_header")
-			vAssert(vEqBytes(f.payload, pings[n]), "rd.reply_payload")
-		}
-	}
-}
-
-// C04_nextreader_discard: NextReader + draining, and Reader.Discard across fragments with
-// interleaved control frames; the next message starts exactly after the discarded one.
-func C04_nextreader_discard() {
-	server := vChoose("side", 2) == 0
-	k, mp, mode, _ := vVariant()
-	wire, items := vGenStream(server, k, mp, true)
-	src := vNewSrc(wire, mode, "chunk")
-	if vChoose("api", 2) == 0 {
-		// NextReader reads the first frame; draining gives the first item
-		h, r, err := NextReader(&src, vSide(server))
-		vAssert(err == nil, "nr.ok")
-		if err != nil {
-			return
-		}
-		vAssert(byte(h.OpCode) == items[0].op, "nr.opcode")
-		p, err := vReadAllB(r, 16)
-		vAssert(err == io.EOF, "nr.eof")
-		vAssert(vEqBytes(p, items[0].payload), "nr.payload")
-		return
-	}
-	rd := &Reader{Source: &src, State: vSide(server), CheckUTF8: true}
-	nint := 0
-	rd.OnIntermediate = func(h ws.Header, r io.Reader) error { nint++; return nil }
-	for n, it := range items {
-		h, err := rd.NextFrame()
-		vAssert(err == nil, "disc.nextframe_ok")
-		if err != nil {
-			return
-		}
-		vAssert(byte(h.OpCode) == it.op, "disc.opcode")
-		if n%2 == 0 {
-			vAssert(rd.Discard() == nil, "disc.discard_ok")
-		} else {
-			p, err := vReadAllB(rd, 16)
-			vAssert(err == io.EOF, "disc.eof")
-			vAssert(vEqBytes(p, it.payload), "disc.payload_after_discard")
-		}
-		vAssert(!rd.State.Fragmented(), "disc.not_fragmented")
-	}
-	vAssert(src.pos == len(wire), "disc.all_consumed")
 }
